@@ -1071,6 +1071,12 @@ def sentinel_guarded(fn, node, root, defs, par):
                 return positive
             if hit and isinstance(t.ops[0], ast.Eq):
                 return not positive
+            # the sentinel is the smallest datetime: `x > y` / `x >= <another date>` can only hold for a real date
+            if positive and not _is_min_value(a_) and not _is_min_value(b_):
+                if isinstance(t.ops[0], (ast.Gt, ast.GtE)) and ast.unparse(a_) in aliases and not isinstance(b_, ast.Constant):
+                    return True
+                if isinstance(t.ops[0], (ast.Lt, ast.LtE)) and ast.unparse(b_) in aliases and not isinstance(a_, ast.Constant):
+                    return True
         return False
 
     cur = node
